@@ -169,6 +169,107 @@ theorem c11_replay_depth_coherent (l : List RRec) (h : coherent CSt.init l = tru
     rrun true RSt.init l = l.map (·.depth) :=
   rrun_coherent l RSt.init CSt.init ⟨rfl, (fun h => by cases h), (fun _ h => by cases h), rfl⟩ h
 
+/-! ### signal handlers: a balanced history at an arbitrary point -/
+
+/-- well-nested calls and returns: what a (traced or untraced) signal handler and everything it
+    calls do between the arrival of the signal and sigreturn -/
+inductive Balanced : List Op → Prop
+  | nil : Balanced []
+  | wrap {k : Kind} {child slot orig fpw : Nat} {h1 h2 : List Op} :
+      Balanced h1 → Balanced h2 → Balanced (.call k child slot orig fpw :: h1 ++ .ret :: h2)
+
+/-- every op of the history is well formed in the state it is executed in -/
+def WFRun (m : M) : List Op → Prop
+  | [] => True
+  | op :: r => WellFormedOp m op ∧ WFRun (step Fix.all m op) r
+
+theorem run_append (fx : Fix) (m : M) (a b : List Op) : run fx m (a ++ b) = run fx (run fx m a) b := by
+  simp [run, List.foldl_append]
+
+theorem WFRun_append {m : M} {a b : List Op} (h : WFRun m (a ++ b)) : WFRun m a ∧ WFRun (run Fix.all m a) b := by
+  induction a generalizing m with
+  | nil => exact ⟨trivial, h⟩
+  | cons op r ih =>
+    obtain ⟨h1, h2⟩ := h
+    obtain ⟨h3, h4⟩ := ih h2
+    exact ⟨⟨h1, h3⟩, h4⟩
+
+/-- everything that later steps can depend on is the same -/
+structure SameState (m m' : M) : Prop where
+  fs : m'.fs = m.fs
+  ctl : m'.sh.rs.map Ent.c = m.sh.rs.map Ent.c
+  mem : ∀ f ∈ m.fs, m'.sh.mem f.slot = m.sh.mem f.slot
+  recIdx : m'.sh.recIdx = m.sh.recIdx
+  inExc : m'.sh.inExc = m.sh.inExc
+  jbs : m'.sh.jbs = m.sh.jbs
+  rjb : m'.rjb = m.rjb
+
+theorem SameState.trans {a b c : M} (h1 : SameState a b) (h2 : SameState b c) : SameState a c :=
+  ⟨h2.fs.trans h1.fs, h2.ctl.trans h1.ctl,
+    fun f hf => (h2.mem f (by rw [h1.fs]; exact hf)).trans (h1.mem f hf),
+    h2.recIdx.trans h1.recIdx, h2.inExc.trans h1.inExc, h2.jbs.trans h1.jbs, h2.rjb.trans h1.rjb⟩
+
+/-- A balanced history inserted at any point (a signal handler interrupting traced code, itself
+    traced or not, calling whatever it likes as long as everything returns) leaves the machine in
+    step and the state unchanged: same frames, same shadow entries, same content of every live
+    return slot, same depth counter, same jmp_buf copies. -/
+theorem c11_signal_transparent {h : List Op} (hb : Balanced h) :
+    ∀ {m : M}, Inv m → m.sh.inExc = false → WFRun m h →
+      Inv (run Fix.all m h) ∧ SameState m (run Fix.all m h) := by
+  induction hb with
+  | nil => intro m hi _ _; exact ⟨hi, ⟨rfl, rfl, fun _ _ => rfl, rfl, rfl, rfl, rfl⟩⟩
+  | @wrap k child slot orig fpw h1 h2 _ _ ih1 ih2 =>
+    intro m hi hx hw
+    obtain ⟨hwc, hw'⟩ := hw
+    obtain ⟨hw1, hw''⟩ := WFRun_append hw'
+    obtain ⟨hwr, hw2⟩ := hw''
+    have hrun : run Fix.all m (.call k child slot orig fpw :: h1 ++ .ret :: h2) =
+        run Fix.all (step Fix.all (run Fix.all (step Fix.all m (.call k child slot orig fpw)) h1) .ret) h2 := by
+      show run Fix.all (step Fix.all m _) (h1 ++ .ret :: h2) = _
+      rw [run_append]; rfl
+    rw [hrun]
+    -- the call
+    have hi1 := inv_call hi hwc
+    obtain ⟨c1, c2, c3, c4, c5, c6⟩ := call_frame hi hx hwc
+    -- the nested history
+    obtain ⟨hi2, s12⟩ := ih1 hi1 c2 hw1
+    have hx2 : (run Fix.all (step Fix.all m (.call k child slot orig fpw)) h1).sh.inExc = false := by
+      rw [s12.inExc]; exact c2
+    have hf2 : (run Fix.all (step Fix.all m (.call k child slot orig fpw)) h1).fs =
+        ⟨slot, orig, chainOf k child⟩ :: m.fs := by rw [s12.fs]; exact c1
+    -- the return
+    obtain ⟨hi3, _⟩ := ret_spec hi2 hwr hf2
+    obtain ⟨r1, r2, r3, r4, r5⟩ := ret_frame hi2 hx2 hwr hf2
+    have hfs3 : (step Fix.all (run Fix.all (step Fix.all m (.call k child slot orig fpw)) h1) .ret).fs = m.fs := by
+      rw [step_ret_eq _ hi2.nh hf2]
+    have s03 : SameState m (step Fix.all (run Fix.all (step Fix.all m (.call k child slot orig fpw)) h1) .ret) := by
+      obtain ⟨d0, hc0, hd0⟩ := hi.ctl
+      obtain ⟨d3, hc3, hd3⟩ := hi3.ctl
+      have e0 : d0 = [] := hd0 hx
+      have e3 : d3 = [] := hd3 r1
+      subst e0; subst e3
+      refine ⟨hfs3, ?_, ?_, ?_, by rw [r1, hx], by rw [r2, s12.jbs, c3], by rw [r3, s12.rjb, c4]⟩
+      · rw [hc3, hc0, hfs3]
+      · intro g hg
+        have hgs : slot < g.slot := hwc.2.1 g hg
+        by_cases htop : ∃ p ps, expFrames m.fs = p :: ps ∧ g.slot = p.loc
+        · -- the top hooked frame: hooked before and after
+          obtain ⟨p, ps, hp, hgp⟩ := htop
+          rw [hgp, hi3.top r1 p ps (by rw [hfs3]; exact hp), hi.top hx p ps hp]
+        · have hne : ∀ p ps, expFrames m.fs = p :: ps → g.slot ≠ p.loc :=
+            fun p ps hp h => htop ⟨p, ps, hp, h⟩
+          rw [r5 g.slot hne, s12.mem g (by rw [c1]; simp [hg]), c6 g.slot (by omega) (by omega) hne]
+      · rw [r4, s12.recIdx, c5]; simp
+    -- the rest of the history
+    have hx3 : (step Fix.all (run Fix.all (step Fix.all m (.call k child slot orig fpw)) h1) .ret).sh.inExc = false := r1
+    obtain ⟨hi4, s34⟩ := ih2 hi3 hx3 hw2
+    exact ⟨hi4, s03.trans s34⟩
+
+/-- the theorem is not vacuous: a handler calling a traced and a PLT function on top of main -/
+example : Balanced [.call .mcount 5 20 3000 29, .call .plt 100 10 3001 0, .ret, .ret] :=
+  Balanced.wrap (h1 := [.call .plt 100 10 3001 0, .ret]) (h2 := [])
+    (Balanced.wrap (h1 := []) (h2 := []) Balanced.nil Balanced.nil) Balanced.nil
+
 /-! ### witnesses: the code as it is -/
 
 /-- C11-LONGJMP-DEPTH: main: setjmp(A); g: setjmp(B); h: longjmp(A); then main calls leaf.
@@ -185,5 +286,50 @@ theorem c11_prefix_longjmp_depth_witness :
 theorem c11_prefix_jmpbuf_overflow_witness (s : Sh) (a : Nat) (h : JMPBUF_CAP < s.rs.length) :
     (setupJmpbuf Fix.none s a).oob = true ∧ (setupJmpbuf Fix.all s a).oob = s.oob := by
   simp [setupJmpbuf, Fix.none, Fix.all, h]
+
+/-- C11-REHOOK-ORDER: a PLT-called library function tail-calls a traced callback which catches an
+    exception and returns: mcount_rstack_rehook (top→bottom) leaves plthook_return in the slot of
+    the chain [PLT entry, mcount entry]; the return then pops a non-PLT entry in __plthook_exit
+    ("invalid dynsym idx").  With the repaired order the callback returns to the library's caller. -/
+def rehookOps : List Op :=
+  [.call .mcount 0 60 1000 61, .call .plt 100 50 1001 0, .tailcall .mcount 1, .call .mcount 2 40 1002 49,
+   .throw, .unwind, .catch_ 49, .ret]
+
+theorem c11_prefix_rehook_order_witness :
+    (run { Fix.all with rehook := false } M.init rehookOps).sh.dead = true ∧
+    (run Fix.all M.init rehookOps).sh.dead = false ∧ (run Fix.all M.init rehookOps).last = 1001 := by decide
+
+/-- C11-EXC-FRAME: with -mfentry `parent_loc[-1]` is no frame pointer; the fallback `parent_loc - 1`
+    keeps the entry of the unwound callee (same slot), so the destructor called from the landing
+    pad is recorded at depth 2 instead of 1. -/
+def excFrameOps : List Op :=
+  [.call .mcount 0 60 1000 61, .call .mcount 1 50 1001 0, .throw, .unwind, .call .mcount 2 50 1002 0]
+
+theorem c11_prefix_exc_frame_witness :
+    ((run { Fix.all with excFrame := false } M.init excFrameOps).sh.rs.head?).map Ent.depth = some 2 ∧
+    ((run Fix.all M.init excFrameOps).sh.rs.head?).map Ent.depth = some 1 ∧
+    logicalDepth (run Fix.all M.init excFrameOps).fs = 2 := by decide
+
+/-- C11-PTHREAD-EXIT: after pthread_exit from a nested call the dead entries stay on the shadow
+    stack; start_thread's next callee reuses the thread function's return slot and mtd_dtor's
+    mcount_rstack_restore overwrites its return address (2000) with the dead frame's (1000). -/
+def pthreadOps : List Op :=
+  [.call .mcount 0 60 1000 61, .call .mcount 1 50 1001 59, .pthreadExit 106 45 1002, .call .none 0 60 2000 0,
+   .mtdDtor, .ret]
+
+theorem c11_prefix_pthread_exit_witness :
+    (run { Fix.all with pthExit := false } M.init pthreadOps).last = 1000 ∧
+    (run Fix.all M.init pthreadOps).last = 2000 := by decide
+
+/-- C11-EXC-PLT: a landing pad calls a library function through the PLT (in_exception still set):
+    its entry goes on top of the dead entry; the traced callback it calls pops both (frame address
+    of the landing-pad function), and the library function's return finds a non-PLT entry. -/
+def excPltOps : List Op :=
+  [.call .mcount 0 60 1000 61, .call .mcount 1 50 1001 59, .throw, .unwind, .call .plt 100 50 1002 0,
+   .call .mcount 2 40 1003 59, .ret, .ret]
+
+theorem c11_prefix_exc_plt_witness :
+    (run { Fix.all with excPlt := false } M.init excPltOps).sh.dead = true ∧
+    (run Fix.all M.init excPltOps).sh.dead = false ∧ (run Fix.all M.init excPltOps).last = 1002 := by decide
 
 end Uft.NonLocal
